@@ -407,10 +407,7 @@ def rule_c02(an, res):
     for cm, roles in an.classes():
         for m in an.entry_points(cm):
             k = ops.kind_of(m)
-            if k == 'UNKNOWN':
-                res.incomplete.append('G-UNKNOWN public entry point %s::%s has no row in the transition table' % (cm.name, m.key()))
-                continue
-            tops = method_segments(an, cm, roles, m, res)
+            tops = method_segments(an, cm, roles, m, res)   # an entry point outside the table still has to keep the books balanced
             for top in tops:
                 if k == 'OBS':
                     check_observer(res, prop, cm, roles, m, top)
@@ -671,7 +668,7 @@ def rule_c03(an, res):
     for cm, roles in an.classes():
         for m in an.entry_points(cm):
             k = ops.kind_of(m)
-            if k in ('OBS', 'CLEAR', 'UNKNOWN'):
+            if k in ('OBS', 'CLEAR'):
                 continue
             for top in method_segments(an, cm, roles, m, res):
                 from rules_misc import check_splice_dest
